@@ -43,6 +43,16 @@ CLAIMED['C01'] = dict(
     technique='CBMC on mechanically extracted real functions: CHECK-encoded contracts + inductive invariant step',
     design='5/C01')
 
+CLAIMED['C02'] = dict(
+    level='proof',
+    text='Serial memory stack extracted verbatim (occa::memory copyFrom/copyTo x4, slice, operator+, cast, setDtype, modeMemory_t::slice, serial::buffer::slice, serial::memory constructor and copy functions): '
+         'from every state satisfying the view invariant, with fully symbolic 64-bit counts/offsets, a request reaches the backend memcpy iff it is valid by the property, the memcpy is asked for exactly the requested byte range inside the view(s) '
+         '(slices alias, nothing outside is touched), every raise happens only for invalid requests and before any copy; slice results satisfy the view invariant inside their parent. '
+         'Complete over the machine domain for power-of-two element sizes; other element sizes are labelled bounded (buffer < 2^16 / 2^10 bytes). Tests only try a few in-range copies.',
+    note='trusted: CBMC C++ front end, flattened skeletons (json/dtype/modeDevice stubs), memcpy recorded not executed, deletes recorded (lifetime = C01). Known finding: uninitialized handles are a silent no-op. Not reached: clone(), contents over long histories, other backends.',
+    technique='CBMC on mechanically extracted real functions: CHECK-encoded contracts from every invariant state, loop-free (complete) per element size',
+    design='5/C02')
+
 PENDING_REASON = 'check not built yet in this session (planned, see DESIGN.md section 5); not claimed until it runs'
 
 
